@@ -8,6 +8,7 @@ import (
 	"go/token"
 	"go/types"
 	"math"
+	"os"
 	"runtime"
 	"strconv"
 	"strings"
@@ -42,7 +43,11 @@ func registerHooks(p *Program) {
 	h[rtPkg+".Choose"] = func(fr *frame, args []value) value {
 		ps := fr.i.es.ps
 		n := asInt64(args[1])
-		s := ps.NewScalar(args[0].(string), "int", types.Int).(*sym)
+		sv := ps.NewScalar(args[0].(string), "int", types.Int)
+		s, isSym := sv.(*sym)
+		if !isSym {
+			return sv
+		}
 		v, ok := ps.Concretize(s, 0, n-1)
 		if !ok {
 			panic(abort{AbortInfeasible, "choose outside range"})
@@ -111,7 +116,13 @@ func registerHooks(p *Program) {
 	h[rtPkg+".CleanupDBs"] = func(fr *frame, args []value) value { return nil }
 	h[rtPkg+".Catch"] = hookCatch
 	h[rtPkg+".Tier"] = func(fr *frame, args []value) value { return fr.i.es.cfg.Tier }
-	h[rtPkg+".Logf"] = func(fr *frame, args []value) value { return nil }
+	h[rtPkg+".Logf"] = func(fr *frame, args []value) value {
+		if fr.i.es.cfg.Verbose {
+			b := formatf(fr, args[0], args[1].([]value))
+			fmt.Fprintln(os.Stderr, "LOG:", toString(mkStr(b)))
+		}
+		return nil
+	}
 
 	// ---- intrinsics ----
 	h["internal/bytealg.Compare"] = func(fr *frame, args []value) value {
@@ -249,6 +260,11 @@ func registerHooks(p *Program) {
 		return structure{uint64(0), int64(63800000000), (*value)(nil)}
 	}
 	h["time.Sleep"] = func(fr *frame, args []value) value { return nil }
+	h["github.com/google/uuid.NewString"] = func(fr *frame, args []value) value {
+		fr.i.noteStub("uuid.NewString: fresh opaque id per call")
+		fr.i.es.uuidN++
+		return fmt.Sprintf("00000000-0000-4000-8000-%012d", fr.i.es.uuidN)
+	}
 }
 
 func doneFlagSet(v value) bool {
